@@ -244,3 +244,20 @@ def f64_image_of(prog, term, src):
     if cb is None:
         return False
     return ret[0] == "cast" and ret[1] == "IntToFloat" and ret[2][0] == "param" and ret[2][1] == 2
+
+
+def returned_string_root(prog, body):
+    """Root place of the String moved into _0 (single return)."""
+    s = sym_of(body)
+    roots = set()
+    for r in body.cfg.returns:
+        v = s.val((0, ()), r, "term")
+        if v[0] == "mut":
+            roots.add(v[3])
+        elif v[0] == "phi":
+            roots.add(v[2])
+        else:
+            raise AnchorMissing("%s: returned value is not a locally built String (%s)" % (body.key, describe(v, body)[:80]))
+    if len(roots) != 1:
+        raise AnchorMissing("%s: several returned strings" % body.key)
+    return next(iter(roots))
